@@ -34,7 +34,9 @@ Qed.
 
 Lemma name_installed_iff inst p : name_installed inst p = true <-> exists q, In q inst /\ bp_name q = bp_name p.
 Proof.
-  unfold name_installed. rewrite existsb_exists. split; intros [q [Hq H]]; exists q; (split; [exact Hq|]); apply String.eqb_eq; exact H.
+  unfold name_installed. rewrite existsb_exists. split; intros [q [Hq H]]; exists q; (split; [exact Hq|]).
+  - unfold is_installed_test, skip_key, install_skip_arg in H. cbn in H. apply String.eqb_eq in H. congruence.
+  - unfold is_installed_test, skip_key, install_skip_arg. cbn. apply String.eqb_eq. congruence.
 Qed.
 
 Lemma install_on_fresh : forall listed inst,
